@@ -7,8 +7,14 @@
 // every call made by verified code.
 package api
 
+//@ import "github.com/oasisprotocol/oasis-core/go/storage/mkvs/node"
 //@ ghost var GBatchCommits int
 //@ ghost var GBatchPuts int
 //@ ghost var GNewBatches int
 //@ ghost var GFinalizes int
 //@ ghost var GBatchCommitsOK int
+
+//@ func NodeDB.GetNode
+//@   iface (self NodeDB, root node.Root, ptr *node.Pointer) (result node.Node, err error)
+//@   ensures err == nil ==> result != nil
+//@   note assumption about every node database: a successful lookup returns a node (both back ends return ErrNodeNotFound or a decoding error otherwise); the lookup may change anything else (no frame)
